@@ -720,7 +720,7 @@ func bbRun(r *simkit.Run, c05 bool) {
 		},
 	})
 
-	if r.Live() > 0 {
+	if r.Unfinished() {
 		r.Fail("liveness", "ballotbox", "voters did not finish (live=%d)", r.Live())
 	}
 
